@@ -38,6 +38,11 @@ type C12Params struct {
 	// be reassembled and the handshake must complete
 	E2E    string   `json:"e2e,omitempty"` // handshake variant
 	E2ENet NetRules `json:"e2e_net,omitempty"`
+	// Repack (E2E): the path re-packs the cleartext handshake records of every datagram into one
+	// record carrying all their fragments (1), and also puts a copy of the first fragment of the
+	// sender's previous datagram in front (2): what a peer that packs several handshake messages
+	// per record, and repeats one, may legally send (RFC 6347 4.2.3)
+	Repack int `json:"repack,omitempty"`
 }
 
 func c12Counts(tier string) (int, int) {
@@ -143,6 +148,7 @@ func c12Gen(r *rand.Rand, tier string, idx int) any {
 			// pieces, with the right offsets and lengths, possibly more than once
 			e.E2ENet.DropPm = 50 + r.IntN(300)
 		}
+		e.Repack = []int{0, 0, 1, 2}[r.IntN(4)]
 
 		return e
 	}
@@ -239,6 +245,54 @@ func c12E2E(rc *RunCtx, p *C12Params) {
 	applyKnobs(&v.C, 0, false, p.MTU)
 	applyKnobs(&v.S, 0, false, p.MTU)
 	n := NewSimNet(s, p.E2ENet)
+	if p.Repack > 0 {
+		rc.R.Class += fmt.Sprintf("/repack%d", p.Repack)
+		prev := map[string][]byte{} // per sender: first cleartext handshake fragment of its previous datagram
+		n.Rewrite = func(e *Emission) []byte {
+			recs, perr := ParseDatagram(e.Data, 0)
+			if perr != nil {
+				return e.Data
+			}
+			var out, run, first []byte
+			var hdr []byte
+			flush := func() {
+				if hdr == nil {
+					return
+				}
+				h := append([]byte(nil), hdr[:11]...)
+				out = append(append(append(out, h...), byte(len(run)>>8), byte(len(run))), run...)
+				hdr, run = nil, nil
+			}
+			for _, r := range recs {
+				if r.Unified || r.Type != CTHandshake || r.Epoch != 0 || len(r.Hs) == 0 {
+					flush()
+					out = append(out, r.Raw...)
+
+					continue
+				}
+				if hdr == nil {
+					hdr = r.Raw[:13]
+					if p.Repack == 2 && prev[e.Ep] != nil && len(out) == 0 {
+						run = append(run, prev[e.Ep]...)
+						s.Fault("repeated-fragment-in-front-of-new-ones")
+					}
+				} else {
+					s.Fault("records-merged")
+				}
+				run = append(run, r.Body...)
+				if first == nil {
+					f := r.Hs[0]
+					first = append([]byte(nil), r.Body[:12+int(f.FLen)]...)
+				}
+			}
+			flush()
+			if first != nil {
+				prev[e.Ep] = first
+			}
+
+			return out
+		}
+	}
 	pair, err := NewPair(s, n, v.C, v.S, nil)
 	if err != nil {
 		rc.Violate("harness", "config: %v", err)
